@@ -1,2 +1,51 @@
-(* C02 — placeholder while the codec proofs are being written. *)
-From DV Require Import Wire.HeaderEdit.
+(* C02 — built messages serialise to valid wire format and round-trip exactly.
+   Statements only; proofs in Proofs/EditProofs.v.  The model of construction is
+   [Wire.HeaderEdit.build] followed by the specification encoder; the
+   DBusTypeWriter is tied to it byte-for-byte by the correspondence run. *)
+From DV Require Import Lib.Base Spec.Codec Wire.HeaderEdit Proofs.EditProofs.
+Local Open Scope N_scope.
+
+(* Full statement: the encoder/decoder round trip, not yet a theorem (decided
+   today on every generated program by evaluating the extracted
+   [spec_decode_message] on the bytes the implementation produced). *)
+Definition C02_full_statement : Prop :=
+  forall le t f s es body, let m := build le t f s es body in
+    fields_ok [] (s_fields m) = true -> mandatory_ok t (s_fields m) = true -> t <> 0 -> s <> 0 ->
+    exists n, spec_decode_message (spec_encode_message m) = Some (m, n).
+
+Theorem C02_body_and_signature : forall le t f s es body,
+  s_body (build le t f s es body) = body /\ s_sig (build le t f s es body) = sig_of_vals body.
+Proof. exact build_body. Qed.
+Print Assumptions C02_body_and_signature.
+
+Theorem C02_signature_field : forall le t f s es b bs,
+  get_field (s_fields (build le t f s es (b :: bs))) 8 = Some (VStr 103 (sig_of_vals (b :: bs))).
+Proof. exact build_signature_field. Qed.
+Print Assumptions C02_signature_field.
+
+(* conversion to the other byte order changes no value, and is an involution *)
+Theorem C02_byteswap_values : forall m,
+  s_fields (swap_order m) = s_fields m /\ s_body (swap_order m) = s_body m /\ s_sig (swap_order m) = s_sig m /\
+  s_type (swap_order m) = s_type m /\ s_flags (swap_order m) = s_flags m /\ s_serial (swap_order m) = s_serial m.
+Proof. exact swap_same_values. Qed.
+Print Assumptions C02_byteswap_values.
+
+Theorem C02_byteswap_involutive : forall m, swap_order (swap_order m) = m.
+Proof. exact swap_involutive. Qed.
+Print Assumptions C02_byteswap_involutive.
+
+(* copy: equal message with serial zero *)
+Theorem C02_copy : forall m,
+  s_serial (copy_msg m) = 0 /\ s_fields (copy_msg m) = s_fields m /\ s_body (copy_msg m) = s_body m /\ s_sig (copy_msg m) = s_sig m /\
+  s_type (copy_msg m) = s_type m /\ s_flags (copy_msg m) = s_flags m /\ s_le (copy_msg m) = s_le m.
+Proof. exact copy_equal_serial0. Qed.
+Print Assumptions C02_copy.
+
+(* non-vacuity: a concrete built message round-trips through the specification decoder *)
+Definition ex_built : smsg :=
+  build true 4 0 7 [ESet 1 (VStr 111 [47;97]); ESet 2 (VStr 115 [97;46;98]); ESet 3 (VStr 115 [83])]
+        [VNum 121 5; VStr 115 [104;105]; VArr (TBasic 105) [VNum 105 1; VNum 105 2]; VVar (TBasic 115) (VStr 115 [97])].
+Example ex_roundtrip : match spec_decode_message (spec_encode_message ex_built) with
+                       | Some (m, _) => s_body m = s_body ex_built /\ map sf_code (s_fields m) = [1; 2; 3; 8]
+                       | None => False end.
+Proof. vm_compute. split; reflexivity. Qed.
